@@ -78,6 +78,12 @@ Init ==
   /\ phase = "live"
 
 Depth(m) == IF mach = "bmdp" THEN m.DB ELSE m.D
+\* LL = 0 ("tiny-mass" cases: belief weights up to ~10^8): a belief at the depth bound gets no look-ahead
+\* table, because the table of such a leaf would need products beyond 2^30 (the leaf itself is still
+\* compared with the real posterior).  Absent field = 1 = every live belief has its table.
+LeafLA(m) == IF "LL" \in DOMAIN m THEN m.LL ELSE 1
+TableAt(m, w, d) == IF LeafLA(m) = 0 /\ d >= Depth(m) THEN BeliefTable(m, ZeroVec(m)) ELSE BeliefTable(m, w)
+HasLA == phase = "live" /\ (LeafLA(M) = 1 \/ Len(hist) < Depth(M))
 
 \* one call of state_estimator(b, a, o) / state_estimator_vec(b, ai, oi) / next_agentstate(b, a, o)
 FilterStep(a, o) ==
@@ -85,7 +91,7 @@ FilterStep(a, o) ==
   /\ la.act[a].lik[o] > 0
   /\ bv' = la.act[a].filt[o]
   /\ bd' = DictFilter(M, bd, a, o)
-  /\ la' = BeliefTable(M, la.act[a].filt[o])
+  /\ la' = TableAt(M, la.act[a].filt[o], Len(hist) + 1)
   /\ hist' = Append(hist, [a |-> a, o |-> o, b |-> la.act[a].filt[o]])
   /\ UNCHANGED <<iid, mach, b0, phase>>
 
@@ -106,7 +112,7 @@ BeliefMDPStep(a, nb) ==
   /\ nb \in la.act[a].succ
   /\ bv' = nb
   /\ bd' = DictOf(M, nb)
-  /\ la' = BeliefTable(M, nb)
+  /\ la' = TableAt(M, nb, Len(hist) + 1)
   /\ hist' = Append(hist, [a |-> a, o |-> 0, b |-> nb])
   /\ UNCHANGED <<iid, mach, b0, phase>>
 
@@ -126,7 +132,7 @@ LookAhead(m) ==
 Emit ==
   PrintT(ToJson([iid |-> iid, mach |-> mach, b0 |-> b0, hist |-> hist, phase |-> phase,
                  bv |-> bv, bd |-> Pairs(bd),
-                 la |-> IF phase = "live" THEN LookAhead(M) ELSE <<>>]))
+                 la |-> IF HasLA THEN LookAhead(M) ELSE <<>>]))
 
 \* ------------------------------------------------------------------ properties (P)
 PlainHist == [i \in 1..Len(hist) |-> [a |-> hist[i].a, o |-> hist[i].o]]
@@ -148,10 +154,10 @@ BeliefNormalised ==
   /\ phase = "empty" => bv = ZeroVec(M) /\ bd = EmptyDict /\ hist # <<>>
 \* (P4) the predictive observation distribution sums to one
 ObsNormalised ==
-  phase = "live" => \A a \in Ac(M) : SumTo(la.act[a].lik, M.NO) = la.den
+  HasLA => \A a \in Ac(M) : SumTo(la.act[a].lik, M.NO) = la.den
 \* (P5) belief-MDP rows are normalised distributions over canonical non-zero beliefs
 BMDPNormalised ==
-  phase = "live" => \A a \in Ac(M) :
+  HasLA => \A a \in Ac(M) :
      LET t == la.act[a] IN
      /\ t.succ # {}
      /\ SumSet(t.wt, t.succ) = la.den
@@ -160,7 +166,7 @@ BMDPNormalised ==
 \*      Sum_nb (wt[nb]/den) * nb[n]/BSum(nb) = pred[n]/(BSum(w)*PD)
 \*      wt[nb] is a multiple of BSum(nb) (sum of the gcds of the merged posteriors)
 MeanIsPrediction ==
-  phase = "live" => \A a \in Ac(M) :
+  HasLA => \A a \in Ac(M) :
      LET t == la.act[a] IN
      /\ \A nb \in t.succ : t.wt[nb] % BSum(M, nb) = 0
      /\ \A n \in St(M) :
@@ -169,13 +175,13 @@ MeanIsPrediction ==
 \* (P7) absorbing beliefs (all mass on absorbing states; dictionary form: every listed key) stay
 \*      absorbing and earn nothing when the absorbing states have no ghost dynamics
 AbsorbingClosed ==
-  /\ la.absb <=> (DOMAIN bd \subseteq ExplAbs(M))
-  /\ (phase = "live" /\ M.ghost = 0 /\ la.absb) =>
+  /\ (HasLA \/ phase = "empty") => (la.absb <=> (DOMAIN bd \subseteq ExplAbs(M)))
+  /\ (HasLA /\ M.ghost = 0 /\ la.absb) =>
         \A a \in Ac(M) : la.act[a].rw = 0 /\ \A nb \in la.act[a].succ : BAbsorbing(M, nb)
 \* (P8) the table the machines step with is the one defined by the stand-alone operators of POMDP.tla
 \*      (checked at the initial beliefs and after the first step; deeper it is a function of bv anyway)
 TableMatchesDefinitions ==
-  (phase = "live" /\ Len(hist) <= 1) => \A a \in Ac(M) :
+  (HasLA /\ Len(hist) <= 1) => \A a \in Ac(M) :
      /\ la.act[a].succ = BSucc(M, bv, a)
      /\ \A nb \in BSucc(M, bv, a) : la.act[a].wt[nb] = BWeight(M, bv, a, nb)
      /\ \A o \in Ob(M) : la.act[a].lik[o] = Lik(M, bv, a, o) /\ la.act[a].filt[o] = Filter(M, bv, a, o)
